@@ -41,3 +41,26 @@ func harnessC20close() {
 	vCover("both-closed")
 	vDone()
 }
+
+// NextId: from an arbitrary counter value, ids handed out - sequentially and from two goroutines at once - are distinct
+func harnessC20nextid() {
+	n0 := vNondetU32("n0")
+	gb := newGRPCBroker(&vStreamer{}, nil, UnixSocketConfig{}, nil, nil)
+	gb.nextId = n0
+	mb := &MuxBroker{nextId: n0}
+	var g [4]uint32
+	var m [4]uint32
+	done := make(chan struct{}, 2)
+	go func() { g[0] = gb.NextId(); m[0] = mb.NextId(); g[1] = gb.NextId(); m[1] = mb.NextId(); done <- struct{}{} }()
+	go func() { g[2] = gb.NextId(); m[2] = mb.NextId(); g[3] = gb.NextId(); m[3] = mb.NextId(); done <- struct{}{} }()
+	<-done
+	<-done
+	for i := 0; i < 4; i++ {
+		for j := i + 1; j < 4; j++ {
+			vAssert(g[i] != g[j], "C20: GRPCBroker.NextId never returns the same ID twice")
+			vAssert(m[i] != m[j], "C20: MuxBroker.NextId never returns the same ID twice")
+		}
+	}
+	vCover("ids-distinct")
+	vDone()
+}
